@@ -23,7 +23,7 @@ def run(ctx):
     tot, outs = coreloop.validate(ctx, cs, ["C16.", "C01.", "C02."], nshards=8)
     # replay of design behaviours that hit the initializer capacity (errors at Gen and at End) on the real Stepper
     rtot, rsamples = coreloop.replay(ctx, [("replay_cap2", dict(NSlots=2, InitCap=2, Charge=False))], 40 if q else 600,
-                                     ["C16.", "C01.", "C02."])
+                                     ["C16.", "C01.", "C02."], per_cfg=200 if q else 3000)
     tot["replay"] = rtot
     tot["errors"] += rtot["errors"]
     ctx.coverage.update({"evaluations": tot["runs"], "distinct_nontrivial": tot["errors"] + tot["failures"],
